@@ -778,7 +778,43 @@ def register(E):
     # ------------------------------------------------------------------ BTreeMap (sorted association list)
     B['BTreeMap::new'] = lambda e, a, c: MapV()
     B['BTreeMap::is_empty'] = lambda e, a, c: len(deref(a[0]).keys) == 0
-    B['BTreeMap::entry'] = lambda e, a, c: Agg('Entry', None, [a[0], a[1]])
+    def map_entry(e, a, c):
+        m = deref(a[0])
+        i, found = locate(e, m, a[1])
+        inner = Agg('OccupiedEntry' if found else 'VacantEntry', None, [a[0], a[1], i])
+        return Agg('Entry', 1 if found else 0, [inner])
+    B['BTreeMap::entry'] = map_entry
+
+    def vacant_insert(e, a, c):
+        v = a[0]
+        m = deref(v.fields[0])
+        i = v.fields[2]
+        m.keys.insert(i, v.fields[1])
+        m.vals.insert(i, a[1])
+        return Ref(m.vals, i)
+    B['VacantEntry::insert'] = vacant_insert
+
+    def occupied_get(e, a, c):
+        o = deref(a[0])
+        return Ref(deref(o.fields[0]).vals, o.fields[2])
+    B['OccupiedEntry::get'] = occupied_get
+    B['OccupiedEntry::get_mut'] = occupied_get
+    B['OccupiedEntry::into_mut'] = occupied_get
+
+    def occupied_insert(e, a, c):
+        o = deref(a[0])
+        m = deref(o.fields[0])
+        old = m.vals[o.fields[2]]
+        m.vals[o.fields[2]] = a[1]
+        return old
+    B['OccupiedEntry::insert'] = occupied_insert
+
+    def occupied_remove(e, a, c):
+        o = deref(a[0])
+        m = deref(o.fields[0])
+        m.keys.pop(o.fields[2])
+        return m.vals.pop(o.fields[2])
+    B['OccupiedEntry::remove'] = occupied_remove
 
     def locate(e, m, key):
         i = 0
@@ -791,10 +827,12 @@ def register(E):
             i += 1
         return i, False
 
+    def _entry_parts(ent):
+        inner = ent.fields[0]
+        return deref(inner.fields[0]), inner.fields[1], inner.fields[2], ent.variant == 1
+
     def or_default(e, a, c):
-        m = deref(a[0].fields[0])
-        key = a[0].fields[1]
-        i, found = locate(e, m, key)
+        m, key, i, found = _entry_parts(a[0])
         if not found:
             m.keys.insert(i, key)
             m.vals.insert(i, VecV())
@@ -802,9 +840,7 @@ def register(E):
     B['Entry::or_default'] = or_default
 
     def or_insert_with(e, a, c):
-        m = deref(a[0].fields[0])
-        key = a[0].fields[1]
-        i, found = locate(e, m, key)
+        m, key, i, found = _entry_parts(a[0])
         if not found:
             val = e.call_value(a[1], []) if 'or_insert_with' in c else a[1]
             m.keys.insert(i, key)
@@ -1005,6 +1041,12 @@ def register(E):
         # the *host's* layout: a symbol of its own (C18)
         if c.endswith('::<()>'):
             return 1 if 'align_of' in c else 0
+        if getattr(e, 'table_mode', False):
+            # C18 table driver: the host's answer for the type the driver is currently registering / asking about
+            k = ('align' if 'align_of' in c else 'size', getattr(e, 'type_tag', 'T'))
+            if k not in e.host_syms:
+                e.host_syms[k] = e.fresh_int('host_%s_%s' % k, 0 if k[0] == 'size' else 1, 2 ** 16)
+            return e.host_syms[k]
         e.host_reads += 1
         if getattr(e, 'host_read_is_violation', False):
             e.verify(False, "C18: the builder or a strategy read the host's own size/alignment of a type (%s)" % c[:80])
